@@ -141,7 +141,11 @@ func (c14) Gen(r *Rng, tier string, run int) *Trace {
 		case 13:
 			// Marshal into the initialised receiver: through the marshaler if one is installed
 			if _, has := g.m.S[s0].Pol["marshal"]; has {
-				g.emit(Op{Obj: s0, M: "Marshal", Args: []Val{vStr("LIST"), g.uv()}, Tag: "q"}, false)
+				if r.Bool(0.5) {
+					g.emit(Op{Obj: s0, M: "Marshal", Args: []Val{vStr("LIST"), g.uv()}, Tag: "q"}, false)
+				} else {
+					g.emit(Op{Obj: s0, M: "Marshal", Args: []Val{{K: "anys", L: []Val{vStr("AND"), g.uv(), g.uv()}}}, Tag: "q"}, false)
+				}
 			}
 		}
 	}
@@ -413,6 +417,18 @@ func (c14) query(x *Exec, st *c14state, op Op, out Outcome, log []Consult) {
 				}
 				if d := cmpStack(x, 0, m, c14keys); d != "" {
 					x.fail("closure-result:Marshal:content", "Marshal with a marshaler installed changed the content: "+d)
+					return
+				}
+				// the closure receives exactly the arguments Marshal was given
+				var given []any
+				for _, a := range op.Args {
+					given = append(given, w.val(a))
+				}
+				for _, c := range log {
+					if c.Kind == "marshal" && c.Args != w.describe(given) {
+						x.fail("closure-result:Marshal:arguments", fmt.Sprintf("%s handed the marshaler %s instead of %s", op, c.Args, w.describe(given)))
+						return
+					}
 				}
 			}
 		case "Less":
